@@ -796,8 +796,8 @@ class OpSeq(Relation):
     coq_case_type = "seqcase"
     coq_model = "model_seq"
     coq_imports = ["Stats", "C15_Model", "C15_Check", "C15_SeqModel"]
-    budget = _bud(500, 12000)
-    max_cases_per_shard = 60
+    budget = _bud(400, 10000)
+    max_cases_per_shard = 40
     anchors = [("haptools/data/phenotypes.py", "Phenotypes.append"), ("haptools/data/phenotypes.py", "Phenotypes.subset"),
                ("haptools/data/phenotypes.py", "Phenotypes.check_missing"), ("haptools/data/phenotypes.py", "Phenotypes.index"),
                ("haptools/data/phenotypes.py", "Phenotypes.standardize"), ("haptools/data/phenotypes.py", "Phenotypes.read"),
@@ -1067,14 +1067,28 @@ class OpSeq(Relation):
     # ---- Coq term -----------------------------------------------------------------------------
     def encode(self, inp, obs):
         steps = obs.get("steps") if isinstance(obs, dict) else None
-        tabs, binds = {}, []
+        tabs, binds, ids, cells = {}, [], {}, {}
+
+        # every distinct table / id / cell value is bound once (Coq parses ~12 k literal characters per second)
+        def ident(x):
+            if x not in ids:
+                ids[x] = f"i{len(ids)}"
+                binds.append(f"let {ids[x]} : name := {chars(x)} in")
+            return ids[x]
+
+        def cell(b):
+            if b not in cells:
+                cells[b] = f"c{len(cells)}"
+                binds.append(f"let {cells[b]} := {L.z(b)} in")
+            return cells[b]
 
         def tab(t):
             key = canon_json(t)
             if key not in tabs:
+                body = (f"mktab {L.lst(t['samples'], ident)} {L.lst(t['names'], ident)} "
+                        f"{L.lst(t['data'], lambda r: L.lst(r, cell))}")
                 tabs[key] = f"t{len(tabs)}"
-                binds.append(f"let {tabs[key]} : ntab := mktab {names_term(t['samples'])} {names_term(t['names'])} "
-                             f"{rows_term(t['data'])} in")
+                binds.append(f"let {tabs[key]} : ntab := {body} in")
             return tabs[key]
 
         t0 = tab({"samples": inp["samples"], "names": inp["names"], "data": inp["data"]})
@@ -1091,9 +1105,10 @@ class OpSeq(Relation):
             if k == "index":
                 ops.append(f"SIndex {L.b(op['s'])} {L.b(op['n'])}")
             elif k == "subset":
-                ops.append(f"SSubset {L.opt(op['rs'], names_term)} {L.opt(op['rn'], names_term)} {L.b(op['inplace'])}")
+                ops.append(f"SSubset {L.opt(op['rs'], lambda l: L.lst(l, ident))} {L.opt(op['rn'], lambda l: L.lst(l, ident))} "
+                           f"{L.b(op['inplace'])}")
             elif k == "append":
-                ops.append(f"SAppend {L.b(op['fit'])} {chars(op['name'])} {L.zl(op['col'])}")
+                ops.append(f"SAppend {L.b(op['fit'])} {ident(op['name'])} {L.lst(op['col'], cell)}")
             elif k == "missing":
                 ops.append(f"SMissing {L.b(op['discard'])}")
             elif k == "writeread":
